@@ -18,19 +18,48 @@ from spec.c15x import *
 
 class SC__visit_expr(Contract):
     target = 'fpy2.analysis.syntax_check:SyntaxCheckInstance._visit_expr'
-    params = {'self': 'SyntaxCheckInstance', 'e': 'Key[Expr]', 'ctx': '_Ctx'}
+    params = {'self': 'SyntaxCheckInstance',
+              'e': ('Union[Var, BoolVal, Decnum, Hexnum, Integer, Rational, Digits, ForeignVal, NullaryOp, UnaryOp, NamedUnaryOp, '
+                    'BinaryOp, NamedBinaryOp, TernaryOp, NamedTernaryOp, NaryOp, NamedNaryOp, ConstNan, ConstInf, ConstPi, ConstE, '
+                    'ConstLog2E, ConstLog10E, ConstLn2, ConstPi_2, ConstPi_4, Const1_Pi, Const2_Pi, Const2_SqrtPi, ConstSqrt2, '
+                    'ConstSqrt1_2, Add, Sub, Mul, Div, Abs, Sqrt, Fma, Neg, Copysign, Fdim, Hypot, Max, Min, AMax, AMin, Mod, Fmod, '
+                    'Remainder, Cbrt, Sum, Ceil, Floor, NearbyInt, RoundInt, Trunc, Acos, Asin, Atan, Atan2, Cos, Sin, Tan, Acosh, Asinh, '
+                    'Atanh, Cosh, Sinh, Tanh, Exp, Exp2, Expm1, Log, Log10, Log1p, Log2, Pow, Erf, Erfc, Lgamma, Tgamma, IsFinite, IsInf, '
+                    'IsNan, IsNormal, Signbit, Logb, Not, Or, And, AnyOf, AllOf, Round, RoundAt, Cast, Len, Size, Range1, Range2, Range3, '
+                    'Dim, Fst, Snd, Empty, Zip, Enumerate, Call, Attribute, Compare, TupleExpr, ListExpr, ListComp, ListRef, ListSlice, '
+                    'IfExpr]'),
+              'ctx': '_Ctx'}
+    overrides = {'e.name@Var': 'Key[NamedId] | UnderscoreId',
+                 'e.args@UnaryOp': 'tuple[Key[Expr]]', 'e.args@BinaryOp': 'tuple[Key[Expr], Key[Expr]]',
+                 'e.args@TernaryOp': 'tuple[Key[Expr], Key[Expr], Key[Expr]]',
+                 'e.args@NaryOp': 'KeySeq[Expr]', 'e.args@Compare': 'KeySeq[Expr]',
+                 'e.args@Call': 'KeySeq[Expr]', 'e.kwargs@Call': 'PairSeq[Expr]',
+                 'e.func@Call': 'Var | Attribute', 'e.func.name@Call': 'Key[NamedId]', 'e.func.value@Call': 'Key[Expr]',
+                 'e.elts@TupleExpr': 'KeySeq[Expr]', 'e.elts@ListExpr': 'KeySeq[Expr]',
+                 'e.targets@ListComp': 'KeySeq[TupleBinding]', 'e.iterables@ListComp': 'KeySeq[Expr]', 'e.elt@ListComp': 'Key[Expr]',
+                 'e.value@ListRef': 'Key[Expr]', 'e.index@ListRef': 'Key[Expr]',
+                 'e.value@ListSlice': 'Key[Expr]', 'e.start@ListSlice': 'Key[Expr] | None', 'e.stop@ListSlice': 'Key[Expr] | None',
+                 'e.cond@IfExpr': 'Key[Expr]', 'e.ift@IfExpr': 'Key[Expr]', 'e.iff@IfExpr': 'Key[Expr]',
+                 'e.value@Attribute': 'Key[Expr]'}
+    split = ['e']
     returns = 'None'
     properties = ['C15']
-    trusted = True
     modifies = ['self.free_var_args']
     may_raise = ['FPySyntaxError']
-    note = ('ASSUMED: SyntaxCheckInstance._visit_expr(e, ctx) either raises FPySyntaxError or returns None, '
-            'changing only self.free_var_args (that it checks every Var of e against ctx.env is D3, '
-            'proved only for _visit_var/_mark_use)')
+    note = ('VERIFIED per expression class (115 classes of fpy2/ast/fpyast.py: every class below a key of '
+            'visitor._expr_dispatch): the dynamic dispatch of ast/visitor.py (type(e).__mro__, _expr_dispatch) reaches '
+            'the visitor of the class, whose contract (contracts/c15x_expr.py, c15_visit.py SC__visit_var) gives D3: a '
+            'normal return means every free use of e (spec/c15x.py `uses`, by structural recursion; children are opaque '
+            'nodes with the abstract use set) is marked defined-on-all-paths in ctx.env.  Used at call sites on opaque '
+            'children = the induction hypothesis of the structural induction over the AST.  pre listcomp_wf = the '
+            'assert of ListComp.__init__')
 
-    def post(self, e, ctx, result):
-        return {'none': result is None,
-                'uses_bound': uses_bound(self, e, ctx.env)}      # D3, spec/c15x.py
+    def pre(self, e):
+        return {'listcomp_wf': (seq_len(e.targets) == seq_len(e.iterables)) if cls_name(e) == 'ListComp' else True}
+
+    def post(self, e, ctx, result, old):
+        return dict(ctx_frame(ctx, old.ctx), none=result is None,
+                    uses_bound=uses_bound(self, e, ctx.env))      # D3, spec/c15x.py
 
 
 class SC__visit_statement(Contract):
